@@ -1,6 +1,7 @@
 import PieModel.Props.C05
 import PieModel.Props.C05Inv
 import PieModel.Props.C05Static
+import PieModel.Props.C20Trans
 #print axioms PieModel.C05_read_hidden_abort
 #print axioms PieModel.C05_read_hidden_iff
 #print axioms PieModel.C05_read_abort_kinds
@@ -39,3 +40,7 @@ import PieModel.Props.C05Static
 #print axioms PieModel.RolesInv.noHidden
 #print axioms PieModel.C05_static_noHidden_history
 #print axioms PieModel.C05_static_noHidden_of_rolesInv
+#print axioms PieModel.C05_trans_noHidden_of_allSat
+#print axioms PieModel.C05_trans_noHidden_history_partial
+#print axioms PieModel.C05_trans_prefix_noHidden_history
+#print axioms PieModel.C05_trans_noHidden_history_FALSE
